@@ -233,11 +233,16 @@ package linkedhashmap
 //@   modifies nothing
 //@   ensures [C14 C16 C17 C18] fresh(result) && Inv(result) && fresh(result.table) && fresh(result.ordering) && N(result) <= N(m)
 //@   ensures [C14] all: forall j :: 0 <= j && j < N(m) ==> Has(result, fst(f(K(m)[j], Val(m, K(m)[j]))))
-//@   ensures [C14] only: forall k like fst(f(K(m)[0], Val(m, K(m)[0]))) :: Has(result, k) ==> (exists j :: 0 <= j && j < N(m) && k == fst(f(K(m)[j], Val(m, K(m)[j]))))
+//@   ensures [C14] only: forall k like fst(f(K(m)[0], Val(m, K(m)[0]))) :: Has(result, k) ==> (exists j :: 0 <= j && j < N(m) && k == fst(f(K(m)[j], Val(m, K(m)[j]))) && Val(result, k) == snd(f(K(m)[j], Val(m, K(m)[j]))))
+//@   -- a key of the new map is the one just put or was there before (and then has a witness among the earlier positions)
+//@   assert after Map.Put#1: arg1 == fst(f(K(m)[iterator.iterator.index], Val(m, K(m)[iterator.iterator.index]))) && arg2 == snd(f(K(m)[iterator.iterator.index], Val(m, K(m)[iterator.iterator.index]))) && 0 <= iterator.iterator.index && iterator.iterator.index < N(m)
+//@   assert after Map.Put#1: forall k like fst(f(K(m)[0], Val(m, K(m)[0]))) :: Has(newMap, k) ==> (k == arg1 && Val(newMap, k) == arg2) || (exists j :: 0 <= j && j < iterator.iterator.index && j < N(m) && k == fst(f(K(m)[j], Val(m, K(m)[j]))) && Val(newMap, k) == snd(f(K(m)[j], Val(m, K(m)[j]))))
+//@   focus loop1:inv-keep:3* : lemma:after-Map.Put#1#*, pre:*
+//@   focus lemma:after-Map.Put#1#2 : loop1:inv:*, Map.Put#1:*, Iterator.Next#*, lemma:after-Map.Put#1#1, pre:*
 //@   loop 1:
 //@     invariant ItInv(iterator) && iterator.iterator.list == m.ordering && iterator.table == m.table && fresh(iterator) && fresh(newMap) && Inv(newMap) && fresh(newMap.table) && fresh(newMap.ordering) && newMap != m && N(newMap) <= min(iterator.iterator.index + 1, N(m))
 //@     invariant forall j :: 0 <= j && j <= iterator.iterator.index && j < N(m) ==> Has(newMap, fst(f(K(m)[j], Val(m, K(m)[j]))))
-//@     invariant forall k like fst(f(K(m)[0], Val(m, K(m)[0]))) :: Has(newMap, k) ==> (exists j :: 0 <= j && j <= iterator.iterator.index && j < N(m) && k == fst(f(K(m)[j], Val(m, K(m)[j]))))
+//@     invariant forall k like fst(f(K(m)[0], Val(m, K(m)[0]))) :: Has(newMap, k) ==> (exists j :: 0 <= j && j <= iterator.iterator.index && j < N(m) && k == fst(f(K(m)[j], Val(m, K(m)[j]))) && Val(newMap, k) == snd(f(K(m)[j], Val(m, K(m)[j]))))
 //@     decreases N(m) - iterator.iterator.index
 
 //@ -- String: starts with the container's name; reads only (C15, C18)
